@@ -142,6 +142,8 @@ def driver_values(rng, shape, kind="positive"):
     if kind == "mixed":
         return rng.uniform(-50.0, 100.0, size=shape)
     if kind == "stock":
+        if rng.random() < 0.15:
+            return rng.integers(10, 1000, size=shape)  # whole-number stocks stored with an integer dtype
         return rng.uniform(10.0, 1000.0, size=shape)
     if kind == "growing":
         base = np.cumsum(rng.uniform(0.0, 50.0, size=shape), axis=0)
@@ -180,10 +182,16 @@ def make_stock(fd, cfg, cls_name, solver=None, lm=None, inflow=None, stock=None)
     if cls_name == "StockDrivenDSM":
         kw["solver"] = solver or "manual"
     if inflow is not None:
-        kw["inflow"] = fd.StockArray(dims=dims, values=np.array(inflow, dtype=float))
+        kw["inflow"] = fd.StockArray(dims=dims, values=_as_given(inflow))
     if stock is not None:
-        kw["stock"] = fd.StockArray(dims=dims, values=np.array(stock, dtype=float))
+        kw["stock"] = fd.StockArray(dims=dims, values=_as_given(stock))
     return cls(**kw)
+
+
+def _as_given(v):
+    """driver values keep an integer dtype when the driver drew whole numbers on purpose"""
+    v = np.asarray(v)
+    return np.array(v, dtype=v.dtype if v.dtype.kind in "iu" else float)
 
 
 def allclose_scaled(a, b, tol, scale=None):
@@ -433,6 +441,9 @@ def c17_case(rec, hub, rng, tier, which):
     hist = []
     length = int(rng.integers(4, 9 if tier == "quick" else 13))
     computed = False
+    # what the model was last told (by label, full shape): the fresh twin is built from THIS, not from what the live object holds
+    told = {k: np.array(v, dtype=float) for k, v in cfg["truth"].items()} if lm is not None else {}
+    persistent = {}  # parameter objects kept by the "user", changed in place and passed again
     base = f"{cls_name}/{solver}|{cfg['model'] if lm is not None else '-'}|{cfg['gclass']}|nt={nt}"
     for step in range(length):
         op = str(rng.choice(["driver", "set_prms", "compute", "read", "compute"])) if step < length - 1 else "compute"
@@ -449,12 +460,22 @@ def c17_case(rec, hub, rng, tier, which):
                 if cls_name == "StockDrivenDSM":
                     nt_ = {k: np.maximum(v, cfg["truth"][k]) if k in ("mean", "weibull_scale") else v for k, v in nt_.items()}
                 kw = {}
+                mode = rng.random()
                 for pn, v in nt_.items():
-                    if rng.random() < 0.5:
+                    if mode < 0.35:
+                        # the same parameter object as last time, its values changed in place
+                        if pn not in persistent:
+                            persistent[pn] = fd.FlodymArray(dims=cfg["dims"], values=np.array(v)) if rng.random() < 0.5 else np.array(v)
+                        obj = persistent[pn]
+                        (obj.values if isinstance(obj, fd.FlodymArray) else obj)[...] = v
+                        kw[pn] = obj
+                    elif mode < 0.7:
                         kw[pn] = fd.FlodymArray(dims=cfg["dims"], values=np.array(v))
                     else:
                         kw[pn] = np.array(v)
+                hist[-1] = "set_prms" + ("(same object)" if mode < 0.35 else "")
                 live.lifetime_model.set_prms(**kw)
+                told = {k: np.array(v, dtype=float) for k, v in nt_.items()}
             elif op == "read" and lm is not None:
                 live.lifetime_model.sf
                 live.lifetime_model.pdf
@@ -464,7 +485,8 @@ def c17_case(rec, hub, rng, tier, which):
                 before = S.results_of(live)
                 # fresh twin from what the live object holds now
                 with hub.pause():
-                    twin = S.fresh_stock(fd, live, **{drive_attr: getattr(live, drive_attr).values})
+                    twin_lm = S.clone_lm(fd, live.lifetime_model, prms=told) if lm is not None else None
+                    twin = S.fresh_stock(fd, live, lm=twin_lm, **{drive_attr: getattr(live, drive_attr).values})
                     if cls_name == "SimpleFlowDrivenStock":
                         twin.outflow.values[...] = live.outflow.values
                     twin.compute()
@@ -496,8 +518,8 @@ def c17_case(rec, hub, rng, tier, which):
 
 def _last_change(hist):
     for op in reversed(hist[:-1]):
-        if op in ("set_prms", "driver"):
-            return op
+        if op.startswith("set_prms") or op == "driver":
+            return op.split("(")[0]
     return "nothing"
 
 
